@@ -232,6 +232,9 @@ def plan(tier, seed):
     for via in ('thread', 'signal'):
       jobs.append({'kind': 'abort-sweep', 'name': 'abort.%s.%s' % (t, via), 'template': t, 'via': via,
                    'stride': 3 if tier == 'quick' else 1, 'offset': seed % 3 if tier == 'quick' else 0})
+  for via in ('thread', 'signal'):    # the same Test object has been executed before (abort during its second run)
+    jobs.append({'kind': 'abort-sweep', 'name': 'abort.rerun.group.%s' % via, 'template': 'group', 'via': via, 'rerun': True,
+                 'stride': 3 if tier == 'quick' else 1, 'offset': seed % 3 if tier == 'quick' else 0})
   return jobs
 
 
@@ -251,9 +254,11 @@ def run_job(job, acct):
     from vf.props import c04  # pylint: disable=g-import-not-at-top
     c04.setup_lines()
     base = {'template': job['template'], 'via': job['via'], 'plan': {}}
+    if job.get('rerun'):
+      base['rerun'] = True
     r0, s0 = c04.check(base)
     inj = ['wake', 'aborter0'] if job['via'] == 'thread' else 'SIGINT'
-    for k in range(job['offset'], s0.k, job['stride']):
+    for k in range(job['offset'], (s0.k // 2 + 50) if job.get('rerun') else s0.k, job['stride']):
       case = dict(base, plan={str(k): inj})
       r, _ = c04.check(case)
       acct.case({'abort_sweep': case}, r.nontrivial, ['abort-sweep', 'template:' + job['template']])
